@@ -631,4 +631,65 @@ example : FFAsm.fromMont 1 12436184717236109307 3962172157175319849 738101653846
     FFAsm.fromMont_adxonly 12436184717236109307 3962172157175319849 7381016538464732718 1011752739694698287 = (1, 0, 0, 0) := by
   decide
 
+/-! ## Butterfly on every aliasing pattern: the back-ends agree
+
+`Butterfly(a, b)` has two destinations.  With distinct elements both back-ends store `(a + b, a − b)`; with
+`a` and `b` the SAME element only one value can survive, and the assembly (operands loaded first, `a` stored
+last) and the portable code (since fix d07808d: both results from copies, `a` stored last) both leave `2a`.
+Before that fix the portable code left `−a` — the C05 defect of DESIGN §6. -/
+
+/-- limbs below `2^64` are determined by their value -/
+theorem val4_inj {a0 a1 a2 a3 b0 b1 b2 b3 : Nat}
+    (ha0 : a0 < W) (ha1 : a1 < W) (ha2 : a2 < W) (ha3 : a3 < W)
+    (hb0 : b0 < W) (hb1 : b1 < W) (hb2 : b2 < W) (hb3 : b3 < W)
+    (h : val4 a0 a1 a2 a3 = val4 b0 b1 b2 b3) : a0 = b0 ∧ a1 = b1 ∧ a2 = b2 ∧ a3 = b3 := by
+  unfold val4 at h
+  simp only [I3.Word.W, I3.W] at *
+  omega
+
+/-- `Butterfly(a, a)`, assembly: the element holds `2a`. -/
+theorem asm_butterfly_ab_ok (a0 a1 a2 a3 : Nat)
+    (ha0 : a0 < W) (ha1 : a1 < W) (ha2 : a2 < W) (ha3 : a3 < W) (ha : val4 a0 a1 a2 a3 < Q) :
+    ∃ r0 r1 r2 r3, FFAsm.Butterfly_ab a0 a1 a2 a3 = (r0, r1, r2, r3) ∧
+      r0 < W ∧ r1 < W ∧ r2 < W ∧ r3 < W ∧
+      val4 r0 r1 r2 r3 = (2 * val4 a0 a1 a2 a3) % Q := by
+  obtain ⟨r0, r1, r2, r3, e, g0, g1, g2, g3, h⟩ := I3.LimbsAsm.asm_butterfly_ab_ok a0 a1 a2 a3 ha0 ha1 ha2 ha3 ha
+  exact ⟨r0, r1, r2, r3, e, g0, g1, g2, g3, by rw [h]; congr 1; omega⟩
+
+/-- `Butterfly(a, a)`, portable code: the element holds `2a`. -/
+theorem butterfly_ab_ok (a0 a1 a2 a3 : Nat)
+    (ha0 : a0 < W) (ha1 : a1 < W) (ha2 : a2 < W) (ha3 : a3 < W) (ha : val4 a0 a1 a2 a3 < Q) :
+    ∃ r0 r1 r2 r3, FF.butterflyGeneric_ab a0 a1 a2 a3 = (r0, r1, r2, r3) ∧
+      r0 < W ∧ r1 < W ∧ r2 < W ∧ r3 < W ∧
+      val4 r0 r1 r2 r3 = (2 * val4 a0 a1 a2 a3) % Q := by
+  obtain ⟨r0, r1, r2, r3, e, g0, g1, g2, g3, h⟩ := I3.Limbs.butterfly_ab_ok a0 a1 a2 a3 ha0 ha1 ha2 ha3 ha
+  exact ⟨r0, r1, r2, r3, e, g0, g1, g2, g3, by rw [h]; congr 1; omega⟩
+
+/-- same element for both arguments: assembly and portable code leave the same limbs. -/
+theorem butterfly_ab_backends_agree (a0 a1 a2 a3 : Nat)
+    (ha0 : a0 < W) (ha1 : a1 < W) (ha2 : a2 < W) (ha3 : a3 < W) (ha : val4 a0 a1 a2 a3 < Q) :
+    FFAsm.Butterfly_ab a0 a1 a2 a3 = FF.butterflyGeneric_ab a0 a1 a2 a3 := by
+  obtain ⟨r0, r1, r2, r3, e, g0, g1, g2, g3, h⟩ := asm_butterfly_ab_ok a0 a1 a2 a3 ha0 ha1 ha2 ha3 ha
+  obtain ⟨s0, s1, s2, s3, e', k0, k1, k2, k3, h'⟩ := butterfly_ab_ok a0 a1 a2 a3 ha0 ha1 ha2 ha3 ha
+  obtain ⟨h0, h1, h2, h3⟩ := val4_inj g0 g1 g2 g3 k0 k1 k2 k3 (h.trans h'.symm)
+  rw [e, e', h0, h1, h2, h3]
+
+/-- distinct elements: assembly and portable code store the same limbs in `a` and in `b`. -/
+theorem butterfly_backends_agree (a0 a1 a2 a3 b0 b1 b2 b3 : Nat)
+    (ha0 : a0 < W) (ha1 : a1 < W) (ha2 : a2 < W) (ha3 : a3 < W)
+    (hb0 : b0 < W) (hb1 : b1 < W) (hb2 : b2 < W) (hb3 : b3 < W)
+    (ha : val4 a0 a1 a2 a3 < Q) (hb : val4 b0 b1 b2 b3 < Q) :
+    FFAsm.Butterfly a0 a1 a2 a3 b0 b1 b2 b3 = FF.butterflyGeneric a0 a1 a2 a3 b0 b1 b2 b3 := by
+  obtain ⟨r0, r1, r2, r3, s0, s1, s2, s3, e, g0, g1, g2, g3, k0, k1, k2, k3, hr, hs⟩ :=
+    asm_butterfly_ok a0 a1 a2 a3 b0 b1 b2 b3 ha0 ha1 ha2 ha3 hb0 hb1 hb2 hb3 ha hb
+  obtain ⟨r0', r1', r2', r3', s0', s1', s2', s3', e', g0', g1', g2', g3', k0', k1', k2', k3', hr', hs'⟩ :=
+    I3.Limbs.butterfly_ok a0 a1 a2 a3 b0 b1 b2 b3 ha0 ha1 ha2 ha3 hb0 hb1 hb2 hb3 ha hb
+  obtain ⟨h0, h1, h2, h3⟩ := val4_inj g0 g1 g2 g3 g0' g1' g2' g3' (hr.trans hr'.symm)
+  obtain ⟨j0, j1, j2, j3⟩ := val4_inj k0 k1 k2 k3 k0' k1' k2' k3' (hs.trans hs'.symm)
+  rw [e, e', h0, h1, h2, h3, j0, j1, j2, j3]
+
+-- non-vacuity: a = 5 in Montgomery form is irrelevant here — any canonical limbs do; (5,0,0,0) is canonical
+example : FFAsm.Butterfly_ab 5 0 0 0 = FF.butterflyGeneric_ab 5 0 0 0 ∧ FFAsm.Butterfly_ab 5 0 0 0 = (10, 0, 0, 0) := by
+  decide +kernel
+
 end I3.Props.C05Asm
